@@ -222,27 +222,39 @@ def check_verify(check, repo, modname, qual, param, expected_roots,
     m2, f2, p2, cands, chain = found
     defs = local_defs(f2)
     secrets = _secret_names(f2, defs)
-    # pick the candidate whose failing edge raises ValueError
+    # the mismatch edge of the comparison must lead to ValueError on every
+    # path and to no normal exit (decided on the interpreted function)
+    it = Interp(repo, max_depth=3)
+    st0 = State()
+    me = None
+    ps2 = params_of(f2)
+    if ps2 and ps2[0] == "self" and "." in f2._qualname:
+        me = it.new_obj(st0, m2, m2.classes.get(f2._qualname.rsplit(".", 1)[0]),
+                        havoc=True)
+    res = it.run(m2, f2, {}, self_obj=me, state=st0)
     chosen = None
+    report = None
     for (ifn, cmp_, neg) in cands:
         is_ne = isinstance(cmp_.ops[0], ast.NotEq) != neg
-        fail_body = ifn.body if is_ne else ifn.orelse
-        raises = [s for s in fail_body if isinstance(s, ast.Raise)]
-        if raises:
-            chosen = (ifn, cmp_, is_ne, raises[0])
+        label = "%s@%d:%d" % (m2.name, ifn.lineno, ifn.col_offset)
+        mism = ("T:" if is_ne else "F:") + label
+        rets = [o for o in res.returns() if mism in o.must]
+        rais = [o for o in res.raises() if mism in o.must]
+        badc = [o.exc for o in rais if "ValueError" not in it.exc_mro(o.exc, m2)]
+        report = (ifn, cmp_, is_ne, rets, rais, badc)
+        if rais and not rets and not badc:
+            chosen = (ifn, cmp_, is_ne)
             break
+    ifn, cmp_, is_ne, rets, rais, badc = report
+    check.ob("V", key + "|raise", chosen is not None, m2.path, ifn.lineno,
+             extracted="mismatch edge of `%s`: %d normal exits, raises %s" % (
+                 norm(ifn.test), len(rets),
+                 ",".join(sorted(set(o.exc for o in rais))) or "nothing"),
+             expected="the mismatch edge always raises ValueError and never "
+                      "reaches a normal exit")
     if chosen is None:
-        ifn, cmp_, neg = cands[0]
-        check.ob("V", key + "|raise", False, m2.path, ifn.lineno,
-                 extracted="mismatch edge of `%s` does not raise" % norm(ifn.test),
-                 expected="raise ValueError on mismatch")
         return None
-    ifn, cmp_, is_ne, rs = chosen
-    ok = raise_class(rs) == "ValueError" or "ValueError" in \
-        Interp(repo).exc_mro(raise_class(rs), m2)
-    check.ob("V", key + "|raise", ok, m2.path, rs.lineno,
-             extracted="mismatch raises %s" % raise_class(rs),
-             expected="ValueError")
+    ifn, cmp_, is_ne = chosen
     left, right = cmp_.left, cmp_.comparators[0]
 
     def is_param(n):
